@@ -9,6 +9,7 @@ import numpy as np
 
 from mc import examples_table as T
 from mc.catalog import methods as METH
+from mc.catalog import members as MEM
 from mc.checks.c10 import run_example
 
 PROPERTY = "C09"
@@ -46,7 +47,12 @@ def judge(name, kw):
         return [], "no-value", 0, None
     fam = METH.FAMILIES[name]
     worst, wdesc, nruns = -np.inf, None, 0
+    MEM.OUT_OF_RANGE[0] = 0
     for perf, desc in fam(kw):
+        if MEM.OUT_OF_RANGE[0]:
+            # the run evaluated a member outside the box on which its membership was verified: it proves nothing
+            MEM.OUT_OF_RANGE[0] = 0
+            continue
         nruns += 1
         if perf > worst:
             worst, wdesc = perf, desc
